@@ -108,7 +108,7 @@ struct TapLeaf : public TapNode {
 };
 
 int main(int argc, char* const* argv)
-{
+try {
     ECC_Start();
 
     pipe_in = !isatty(fileno(stdin)) || std::getenv("DEBUG_SET_PIPE_IN");
@@ -492,6 +492,9 @@ int main(int argc, char* const* argv)
     }
 
     ECC_Stop();
+} catch (const std::exception& ex) {
+    fprintf(stderr, "error: %s\n", ex.what());
+    return 1;
 }
 
 static void GetRandBytes(unsigned char* buf, int num)
